@@ -80,6 +80,10 @@ macro_rules! impl_real {
                         formatter.push_str(b"9.9E+37")
                     }
                 } else {
+                    // lexical-core writes negative zero without its sign
+                    if *self == 0.0 && self.is_sign_negative() {
+                        formatter.push_byte(b'-')?;
+                    }
                     let mut buf = [b'0'; <$typ>::FORMATTED_SIZE_DECIMAL];
                     let slc = lexical_core::write::<$typ>(*self, &mut buf);
                     formatter.push_str(slc)
